@@ -262,7 +262,9 @@ def npts_pred(case):
         c01.predicate({"shape": npts, "nprocs": [a, b], "layouts": [[k, v] for k, v in STD.items()],
                        "mode": "std", "dtype": "float64",
                        "ops": [[i, j, bool((i + j) % 2), False] for i in range(3) for j in range(3) if i != j],
-                       "schedule": case.get("schedule", [])})
+                       "schedule": case.get("schedule", []),
+                       # an earlier handler on the same communicator with the transposed grid shape
+                       "decoy": [b, a] if a != b else None})
         labels.append("transposed-on-world")
     return {"nontrivial": len(valid) != 1, "labels": labels}
 
